@@ -33,3 +33,17 @@ if b in s:
     print("table updated: %d rows" % len(rows))
 else:
     print(table)
+
+# findings table
+kf = json.load(open(os.path.join(HERE, "known_findings.json")))["findings"]
+out = ["| property | status | signature | what | repair / why not repaired |", "|---|---|---|---|---|"]
+for f in sorted(kf, key=lambda f: (f["property"], f["status"], f["signature"])):
+    out.append("| %s | %s | `%s` | %s | %s |" % (f["property"], f["status"], f["signature"], f["what"].replace("|", "\\|"),
+               ("/repo commit " + f["commit"]) if f["status"] == "fixed" else f.get("why_not_fixed", "").replace("|", "\\|")))
+ftable = "\n".join(out)
+s = open(p).read()
+b, e = "<!-- FINDINGS-TABLE-BEGIN -->", "<!-- FINDINGS-TABLE-END -->"
+if b in s:
+    s = s[:s.index(b) + len(b)] + "\n" + ftable + "\n" + s[s.index(e):]
+    open(p, "w").write(s)
+    print("findings table updated: %d rows" % len(kf))
